@@ -42,6 +42,17 @@ pure func pwf(vals map[string]string, order []string) bool reads heap {
   (forall i int, j int :: 0 <= i && i < j && j < len(order) ==> order[i] != order[j]) &&
   (forall k string :: has(vals, k) ==> idxOf(order, k, len(order)) >= 0) }
 
+// ---------- C07: end of input is reported only when nothing but empty lines and comments was left ----------
+
+// end (exclusive) of the line that starts at k: just after its line feed, or the end of the input
+pure func lineEnd(s string, k int) int { indexByte(s, 10, k) < k ? len(s) : indexByte(s, 10, k) + 1 }
+// a line that is skipped between paragraphs: a comment, or an empty line (LF, CRLF, or a lone CR at the very end)
+pure func skipLine(s string, k int, e int) bool { s[k] == 35 || (s[k] == 10 && e == k + 1) || (s[k] == 13 && ((e == k + 2 && s[k+1] == 10) || (e == k + 1 && e == len(s)))) }
+// every line of s from position k on is such a line
+pure func onlySkipped(s string, k int) bool
+  decreases len(s) - k
+  { k < 0 || k >= len(s) ? true : (skipLine(s, k, lineEnd(s, k)) && onlySkipped(s, lineEnd(s, k))) }
+
 func (*ParagraphReader).Next
   requires p != nil && p.reader != nil
   // a value xor an error
@@ -51,6 +62,9 @@ func (*ParagraphReader).Next
   ensures result1 == nil ==> result0.Values != nil && pwf(result0.Values, result0.Order) && len(result0.Order) > 0
   // end of input is reported only when the input is exhausted; a paragraph is returned only after input was consumed
   ensures result1 == io.EOF ==> p.reader.rem == ""
+  // ... and only when nothing but empty lines and comments was left: a last paragraph, terminated or not, is never
+  // dropped in favour of io.EOF
+  ensures result1 == io.EOF ==> onlySkipped(old(p.reader.rem), 0)
   ensures len(p.reader.rem) <= len(old(p.reader.rem))
   ensures result1 == nil ==> len(p.reader.rem) < len(old(p.reader.rem))
   ensures p.reader == old(p.reader)
@@ -62,6 +76,15 @@ func (*ParagraphReader).Next
     invariant paragraph.Values != nil && pwf(paragraph.Values, paragraph.Order)
       by { forall k string { idxOf_prefix(at(L1.head, paragraph.Order), paragraph.Order, k, len(at(L1.head, paragraph.Order))) } }
     invariant len(paragraph.Order) > 0 ==> lastKey == paragraph.Order[len(paragraph.Order) - 1]
+    // what is left is a suffix of the input
+    invariant forall j int :: len(old(p.reader.rem)) - len(p.reader.rem) <= j && j < len(old(p.reader.rem)) ==> old(p.reader.rem)[j] == p.reader.rem[j - (len(old(p.reader.rem)) - len(p.reader.rem))]
+    // as long as no field was seen, everything consumed was skipped lines
+    invariant len(paragraph.Order) == 0 ==> onlySkipped(old(p.reader.rem), 0) == onlySkipped(old(p.reader.rem), len(old(p.reader.rem)) - len(p.reader.rem))
+      by {
+        forall j int { idx_least(at(L1.head, p.reader.rem), 10, 0, j) }
+        idx_is(old(p.reader.rem), 10, len(old(p.reader.rem)) - len(at(L1.head, p.reader.rem)), len(old(p.reader.rem)) - len(p.reader.rem) - 1)
+        idx_none(old(p.reader.rem), 10, len(old(p.reader.rem)) - len(at(L1.head, p.reader.rem)))
+      }
     decreases len(p.reader.rem)
 
 // reading all at once = iterating Next until the end of the input; on error nothing is returned
@@ -610,7 +633,7 @@ layout BestChecksums
   field "Checksums-Sha256" hashes sha256
   field "Checksums-Sha512" hashes sha512
 
-property C07: lemma idxOf_prefix, (*ParagraphReader).Next, (*ParagraphReader).All
+property C07: lemma idx_least, lemma idx_is, lemma idx_none, lemma idxOf_prefix, (*ParagraphReader).Next, (*ParagraphReader).All
 property C09: lemma idxOf_prefix, lemma idxOf_found, (*Paragraph).Set, (*Paragraph).Update
 
 property C10: (*DSC).HasArchAll, (*DSC).Maintainers, (*SourceParagraph).Maintainers, (*DSC).AbsFiles, (*Changes).AbsFiles, (*DSC).DebianSource, (*BinaryIndex).SourcePackage, (*BestChecksums).Checksums, (*FileHash).unmarshalControl, (*MD5FileHash).UnmarshalControl, (*SHA1FileHash).UnmarshalControl, (*SHA256FileHash).UnmarshalControl, (*SHA512FileHash).UnmarshalControl, (*FileListChangesFileHash).UnmarshalControl, layout DSC, layout Changes, layout SourceParagraph, layout BinaryParagraph, layout BinaryIndex, layout SourceIndex, layout BestChecksums
